@@ -124,10 +124,7 @@ func MainS(prop string) {
 		if g.mode != gprog.MWorkflow {
 			continue
 		}
-		if c.Replay == "" && !c.Mine(g.name) {
-			continue
-		}
-		c.Res.Scenarios-- // scenarios are the histories, not the groups (the sharding unit)
+		// sharding by history (not by group): a few programs carry most of the interleavings
 		g.traces(func(t *Trace) {
 			if t.NoID && prop == "C05" {
 				return
@@ -144,8 +141,10 @@ func MainS(prop string) {
 				c.ReplayScenario(sc)
 				return
 			}
+			if !c.Mine(sc.Name) {
+				return
+			}
 			c.Sample(map[string]any{"history": t.String(), "bounds": bounds})
-			c.Res.Scenarios++
 			c.Add(sc)
 		})
 	}
